@@ -87,6 +87,10 @@ def materialise(spec, v):
         # keep the reaction meaningful relative to the overriding timeout
         if react[0] in ('die', 'exit'):
             beh = {str(osig): [react[0], min(react[1], ogt + .35)] + list(react[2:])}
+    if stop_children and list(react) == ['ignore'] and rnd.random() < .4:
+        # the worker answers the stop signal by forking one more helper and goes on: a child that did not exist when
+        # the stop signal was sent
+        beh = {k_: ['fork'] for k_ in beh}
     behs = [beh]
     if cause == 'restart_x5':
         # the first generations sit out the grace period (or do whatever the cell says), the later ones would
@@ -326,6 +330,7 @@ def _history(w, h, res):
         # R5: children
         if conf.get('stop_children'):
             kids = [c for c in k.procs.values() if c.orig_ppid == pid and c.created <= t0
+                    and not (c.popen_kw or {}).get('forked_on_signal')      # forked in answer to the stop signal
                     and (c.exit_t is None or c.exit_t > t0) and c.cause != 'ext']       # not the vanished child
             for c in kids:
                 res.obs['children_judged'] += 1
@@ -350,6 +355,31 @@ def _history(w, h, res):
                             res.violation('C03/child-missed-sigkill' + ('[parent-died-at-once]' if inst else ':' + cause),
                                           'worker %d was escalated to SIGKILL at +%.3fs but its child %d (alive) was '
                                           'not sent SIGKILL (kill latency %s)' % (pid, tk - t0, c.pid, h['kill_latency']))
+        # ... and so are the descendants that came later or sit deeper: everything below the worker that is running
+        # (with every process in between running) when the worker is escalated
+        if conf.get('stop_children') and kills and p.cause == 'circus:9':
+            tk = kills[0][0]
+
+            def running_at(c, t):
+                return c.created < t - EPS and (c.exit_t is None or c.exit_t > t)
+            below, frontier = [], [pid]
+            while frontier:
+                x = frontier.pop()
+                for c in k.procs.values():
+                    if c.orig_ppid == x and c.pid != pid and running_at(c, tk) and c.cause != 'ext':
+                        below.append(c)
+                        frontier.append(c.pid)
+            for c in below:
+                late = c.created > t0 or bool((c.popen_kw or {}).get('forked_on_signal'))
+                if c.orig_ppid == pid and not late:
+                    continue                     # judged above
+                res.obs['late_or_deep_descendants_alive_at_escalation'] += 1
+                gotk = [s_ for (t, s_, snd) in c.signals if snd == 'circus' and s_ == 9 and abs(t - tk) < EPS]
+                if not gotk:
+                    res.violation('C03/descendant-missed-sigkill:' + ('forked-after-the-stop-signal' if late else 'grandchild'),
+                                  'worker %d was escalated to SIGKILL at +%.3fs but its descendant %d (parent %d, created '
+                                  '%+.3fs relative to the stop signal, running) was not sent SIGKILL'
+                                  % (pid, tk - t0, c.pid, c.orig_ppid, c.created - t0))
     if judged:
         res.nontrivial(simhist.kernel_sig(w, [[cause]]))
         if res.sample is None:
